@@ -76,7 +76,7 @@ PLANS = {
                'thorough': [('msa', dict(invariants=['Inv_C01'], prmset='PrmMsa', ceilos=('a',), nt=3)),
                             ('msa2', dict(invariants=['Inv_C01'], prmset='PrmMsaQ', ceilos=('a', 'b'), nt=2, vv=True, maxper=1))]},
         'families': {'quick': [('F2', fam_layer_tables, 700), ('F1', fam_model('PrmMsaQ'), 200), ('Rtiny', fam_rand('tiny'), 250), ('Rmid', fam_rand('mid'), 40)],
-                     'thorough': [('F2', fam_layer_tables, 30000), ('F1', fam_model('PrmMsa'), 6000), ('Rtiny', fam_rand('tiny'), 3000), ('Rmid', fam_rand('mid'), 400)]},
+                     'thorough': [('F2', fam_layer_tables, 30000), ('F1', fam_model('PrmMsa'), 6000), ('F1x', fam_model('PrmMsaQ', ceilos=('a',), nt=3), None), ('Rtiny', fam_rand('tiny'), 3000), ('Rmid', fam_rand('mid'), 400)]},
         'marks': ['N_tok1', 'N_tok2', 'N_tok3', 'N_msaeq', 'N_abovemsa', 'N_suppressed', 'N_4rep', 'N_okta0row', 'N_ncd', 'N_nsc'],
     },
     'C02': {
@@ -85,7 +85,7 @@ PLANS = {
                'thorough': [('msa', dict(invariants=['Inv_C02'], prmset='PrmMsa', ceilos=('a',), nt=3)),
                             ('msa2', dict(invariants=['Inv_C02'], prmset='PrmMsaQ', ceilos=('a', 'b'), nt=2, vv=True, maxper=1))]},
         'families': {'quick': [('F2', fam_layer_tables, 700), ('F1', fam_model('PrmMsaQ'), 200), ('Rtiny', fam_rand('tiny'), 250), ('Rmid', fam_rand('mid'), 40)],
-                     'thorough': [('F2', fam_layer_tables, 30000), ('F1', fam_model('PrmMsa'), 6000), ('Rtiny', fam_rand('tiny'), 3000), ('Rmid', fam_rand('mid'), 400)]},
+                     'thorough': [('F2', fam_layer_tables, 30000), ('F1', fam_model('PrmMsa'), 6000), ('F1x', fam_model('PrmMsaQ', ceilos=('a',), nt=3), None), ('Rtiny', fam_rand('tiny'), 3000), ('Rmid', fam_rand('mid'), 400)]},
         'marks': ['N_ceilnotfirst', 'N_msaeq', 'N_abovemsa', 'N_ncd', 'N_nsc', 'N_flagedge', 'N_suppressed', 'N_okta0row'],
         'seed_shift': 7,
     },
@@ -95,7 +95,7 @@ PLANS = {
                'thorough': [('okta', dict(invariants=['Inv_C03'], prmset='PrmOkta', ceilos=('a', 'b'), nt=2, slice_oracle='bands')),
                             ('okta3', dict(invariants=['Inv_C03'], prmset='PrmOkta', ceilos=('a',), nt=4))]},
         'families': {'quick': [('F7nm', fam_nm, 900), ('F1', fam_model('PrmOkta'), 250), ('Ranomaly', fam_anomaly, 250), ('Rtiny', fam_rand('tiny'), 250), ('Rmid', fam_rand('mid'), 40)],
-                     'thorough': [('F7nm', fam_nm, None), ('F1', fam_model('PrmOkta'), 6000), ('Ranomaly', fam_anomaly, 3000), ('Rtiny', fam_rand('tiny'), 3000), ('Rmid', fam_rand('mid'), 400)]},
+                     'thorough': [('F7nm', fam_nm, None), ('F1', fam_model('PrmOkta'), 6000), ('F1x', fam_model('PrmOkta', ceilos=('a',), nt=3), None), ('Ranomaly', fam_anomaly, 3000), ('Rtiny', fam_rand('tiny'), 3000), ('Rmid', fam_rand('mid'), 400)]},
         'marks': ['N_multihit', 'N_okta0buf', 'N_okta8buf', 'N_oktatie', 'N_rows'],
         'seed_shift': 11,
     },
@@ -120,7 +120,7 @@ PLANS = {
                             ('ids3', dict(invariants=['Inv_C05'], prmset='PrmSplit', ceilos=('a', 'b'), nt=2, slice_oracle='bands', group_oracle='slices')),
                             ('layerids', 'MC_LayerIds')]},
         'families': {'quick': [('F4stress', fam_stress, 2), ('F3b', fam_split, 120), ('F1', fam_model('PrmSplit'), 200), ('Ranomaly', fam_anomaly, 150), ('Rtiny', fam_rand('tiny'), 250), ('Rmid', fam_rand('mid'), 80)],
-                     'thorough': [('F4stress', fam_stress, 8), ('F3b', fam_split, 2000), ('F1', fam_model('PrmSplit'), 5000), ('Ranomaly', fam_anomaly, 2000), ('Rtiny', fam_rand('tiny'), 3000), ('Rmid', fam_rand('mid'), 800), ('Rbig', fam_rand('big'), 80)]},
+                     'thorough': [('F4stress', fam_stress, 8), ('F3b', fam_split, 2000), ('F1', fam_model('PrmSplit'), 5000), ('F1x', fam_model('PrmSplit', ceilos=('a',), nt=3), None), ('Ranomaly', fam_anomaly, 2000), ('Rtiny', fam_rand('tiny'), 3000), ('Rmid', fam_rand('mid'), 800), ('Rbig', fam_rand('big'), 80)]},
         'marks': ['N_split', 'N_split3', 'N_gmm1', 'N_merge', 'N_crop', 'N_cropdrop', 'N_multihit'],
         'seed_shift': 17,
     },
@@ -214,6 +214,7 @@ def run_plan(out, tier, seed, pid, extra_traces_hook=None):
         'run_wall_s': round(t_run, 1), 'tlc_trace_wall_s': round(stats['wall_s'], 1),
         'checker_cmd': f'./check {pid} --tier {tier}',
         'exhaustive': False,
+        'exhaustive_families': [k for k, v in fam_totals.items() if v is not None and fam_counts.get(k) == v],
     }
     if f2 and realised < 0.9 * len(f2):
         raise fw.Machinery(f'only {realised}/{len(f2)} abstract layer tables realised by the real pipeline')
